@@ -658,7 +658,7 @@ func C10(ctx *core.Ctx) error {
 	row(c10Slice(reflect.TypeOf(float64(0)), nil))
 	row(c10Slice(reflect.TypeOf(""), nil))
 	row(c10Slice(nil, nil))
-	for i := 0; i < ctx.Scale(40, 800); i++ {
+	for i := 0; i < ctx.Scale(25, 800); i++ {
 		row(c10Slice(reflect.TypeOf(float64(0)), pickN(f64s, 1+sr.Intn(4))))
 		row(c10Slice(reflect.TypeOf(""), pickN(sts, 1+sr.Intn(4))))
 	}
@@ -678,7 +678,7 @@ func C10(ctx *core.Ctx) error {
 			}
 		}
 	}
-	for i := 0; i < ctx.Scale(30, 600); i++ {
+	for i := 0; i < ctx.Scale(18, 600); i++ {
 		row(c10Slice(reflect.TypeOf(""), pickN(numStrs, 1+sr.Intn(4))))
 		row(c10Slice(nil, pickN(smallInts, 1+sr.Intn(4))))
 		mix := pickN(smallInts, 1+sr.Intn(3))
@@ -696,7 +696,7 @@ func C10(ctx *core.Ctx) error {
 	if ctx.Explode < 0 {
 		or := r.Fork(5)
 		ts := c10RowTargets()
-		n := ctx.Scale(300, 6000)
+		n := ctx.Scale(200, 6000)
 		for i := 0; i < n; i++ {
 			k := 1 + or.Intn(4)
 			perm := make([]int, len(ts))
@@ -743,8 +743,15 @@ func C10(ctx *core.Ctx) error {
 					}
 				}
 			}
-			ctx.Add(emit.App("COneOf", emit.List(terms), s.term, o, emit.Z(int64(picked))),
-				map[string]interface{}{"kind": "oneof", "call": fmt.Sprintf("val.ConvOneOf([%s], %s)", strings.Join(names, " "), s.desc), "observed": d, "picked": picked}, true)
+			first := -1
+			for j := range fs {
+				if _, e, p := c10Conv(fs[j], s.goVal); e == nil && !p {
+					first = j
+					break
+				}
+			}
+			ctx.Add(emit.App("COneOf", emit.List(terms), s.term, o, emit.Z(int64(picked)), emit.Z(int64(first))),
+				map[string]interface{}{"kind": "oneof", "call": fmt.Sprintf("val.ConvOneOf([%s], %s)", strings.Join(names, " "), s.desc), "observed": d, "picked": picked, "first_format_val.Conv_accepts": first}, true)
 			ctx.Count(fmt.Sprintf("oneof:picked%d", picked))
 		}
 	}
@@ -901,7 +908,7 @@ func c10Front(ctx *core.Ctx, r *gen.Rng, pool []c10Src, strs []string) error {
 	for _, x := range enumSrc {
 		one(enumLeaf, c10ScalarSrc(x))
 	}
-	n := ctx.Scale(700, 12000)
+	n := ctx.Scale(400, 12000)
 	if ctx.Tier == "search" {
 		n = 3000
 	}
@@ -911,7 +918,7 @@ func c10Front(ctx *core.Ctx, r *gen.Rng, pool []c10Src, strs []string) error {
 	// NewValuesByString over plain (and leafref) leaves
 	goodStrs := []string{"0", "1", "-1", "127", "128", "255", "256", "-128", "-129", "65535", "65536", "true", "false", "1.5", "0.25", "abc", "",
 		"2147483647", "2147483648", "4294967295", "4294967296", "9223372036854775807", "9223372036854775808", "18446744073709551615", "18446744073709551616", "+1", " 1", "yes", "no"}
-	nm := ctx.Scale(150, 3000)
+	nm := ctx.Scale(120, 3000)
 	for i := 0; i < nm; i++ {
 		k := 1 + r.Intn(4)
 		ls := make([]meta.Leafable, k)
